@@ -76,9 +76,10 @@ def interleaved(ctx, n, lits, cj):
                       heap=[(h["ty"], h["kind"], len(h["children"])) for h in desc["tp_a"]["heap"]]),
                  nontrivial=bool(hook.fired), bucket="two-thread limits")
         if raised is not None or set(snaps) != {"tp-a", "tp-b"}:
-            ctx.fail("snapshots %s for two overlapping hits (%r)" % (sorted(snaps), raised), desc, kind="schedule", tag="no-snapshot")
-            continue
+            e1.no_snapshot(ctx, desc, raised)        # a hit that delivers nothing is C03 / C06; the delivered snapshot is still examined
         for tid, case, heap in (("tp-a", case_a, heap_a), ("tp-b", case_b, heap_b)):
+            if tid not in snaps:
+                continue
             dk = dict(desc, snapshot_of=tid)
             try:
                 obs = e1.observe(snaps[tid], heap)
@@ -117,7 +118,7 @@ def run(ctx, focus="C05"):
             ctx.case(dict(limits=desc["limits"], frame_type=desc["frame_type"], heap=[(h["ty"], h["kind"], len(h["children"])) for h in desc["heap"]]),
                      nontrivial=bool(snaps and snaps[0].var_lookup), bucket="max_vars=%s" % case["limits"]["max_vars"])
             if raised is not None or len(snaps) != 1:
-                ctx.fail("no snapshot produced (%r)" % (raised,), desc, tag="no-snapshot")
+                e1.no_snapshot(ctx, desc, raised)
                 continue
             obs = e1.observe(snaps[0], heap)
             oracle(ctx, case, heap, obs, desc)
@@ -129,7 +130,8 @@ def run(ctx, focus="C05"):
         interleaved(ctx, 150 if ctx.thorough else 30, lits, cj)
     finally:
         e1.restore_clock(saved)
-    ctx.correspond("collector", e1.IMPORTS, "snap_case", "check_snap_case", lits, cj, shard=60)
+    e1.too_many_skipped(ctx, ctx.evaluations)
+    ctx.correspond("collector", e1.IMPORTS, "snap_case", "check_snap_case_bounds", lits, cj, shard=60)
 
 
 def replay(ctx, data):
